@@ -472,11 +472,17 @@ func (s *Syncer) runPeer(p *Peer) {
 		s.peerRemoved.Broadcast()
 	}()
 
-	done, err := s.tg.Add()
+	ctx, done, err := s.tg.AddContext(context.Background())
 	if err != nil {
+		p.Close()
 		return
 	}
 	defer done()
+	// close the peer when the syncer shuts down: a peer that is added after
+	// Run's final sweep (its handshake raced the Close) would otherwise sit in
+	// acceptRPC forever and keep both Run and Close from returning
+	stop := context.AfterFunc(ctx, func() { p.Close() })
+	defer stop()
 
 	subnet := s.subnetKey(p.ConnAddr)
 	inflight := make(chan struct{}, s.config.MaxInflightRPCs)
